@@ -52,14 +52,16 @@ RULE = ('One case = one small reference-encoded file (<= ~3 KB): CAMx uamiv, '
         'prefix on disk): an exception at open or read is accepted; '
         'otherwise CAMx: the reader exposes m <= n steps, LAY/ROW/COL as in '
         'the full file, and TFLAG, ETFLAG and every variable restricted to '
-        'steps 0..m-1 equal the full file bit for bit; bpch: the data block '
-        'is the atomic unit (files whose diagnostics have different numbers '
-        'of time blocks are valid), so time = m <= n, every exposed tracer '
-        'variable has m_v leading time blocks with m_v <= the number of its '
-        'data blocks completely inside the prefix, bit-identical to the full '
-        'file, tau0/tau1 of the m blocks identical, no variable that is not '
-        'in the file; a tracer that is absent or shorter than another is '
-        'counted (outcome:bpch-fewer-tracers / bpch-ragged), not judged.  '
+        'steps 0..m-1 equal the full file bit for bit; bpch: a time block '
+        'is complete when all data blocks carrying its tau0 are inside the '
+        'prefix; time = m <= (complete time blocks) <= n, the variable set '
+        'of the exposed steps equals the full file\'s and every tracer '
+        'variable has exactly m leading steps (clause incomplete-time-block '
+        'otherwise), values bit-identical to the full file, tau0/tau1 of '
+        'the m blocks identical, no variable that is not in the file; '
+        'outcome:bpch-fewer-tracers / bpch-ragged count the prefixes that '
+        'expose a step with tracers missing (on the unchanged tree only '
+        'cuts exactly at a data-block boundary: known finding).  ' 
         'Offsets are classified header / marker / mid-record / '
         'record-boundary / step-boundary (= time-block boundary for bpch); '
         'per case the first offending offset of each (clause, class, mode) '
@@ -517,3 +519,7 @@ known.register('C14-cloud_rain-nvar-ambiguity', lambda spec, f: (
     _tags(f)[0] in ('record-boundary', 'step-boundary') and
     f.clause in ('data-differ', 'variable-missing', 'tflag-differ',
                  'dims-changed', 'steps-out-of-range')))
+known.register('C14-bpch-datablock-boundary', lambda spec, f: (
+    spec['fmt'] in BPCH_FORMATS and f.clause == 'incomplete-time-block' and
+    _tags(f)[0] == 'record-boundary' and
+    ('fewer-tracers' in _tags(f) or 'ragged' in _tags(f))))
